@@ -299,7 +299,7 @@ class Folder:
                 return env[e.id]
             if e.id in ("True", "False", "None"):
                 return {"True": True, "False": False, "None": None}[e.id]
-            if e.id in ("str", "int", "bool", "bytes", "list", "dict", "float", "set", "frozenset", "tuple", "len",
+            if e.id in ("str", "int", "bool", "bytes", "bytearray", "memoryview", "list", "dict", "float", "set", "frozenset", "tuple", "len",
                         "isinstance", "getattr", "all", "any", "super", "sorted", "hasattr", "callable", "next", "reversed", "min", "max", "sum", "enumerate", "zip",
                         "divmod", "abs", "hex", "pow", "round", "bin", "oct", "chr", "ord"):
                 return ("builtin", e.id)
@@ -641,8 +641,8 @@ class Folder:
                 return ExtVal(name, tuple(args), (), True)  # a conversion of an external result stays a symbolic term
             if name == "len":
                 return len(args[0])
-            if name in ("str", "int", "bool", "bytes", "list", "dict", "float", "set", "frozenset", "tuple", "sorted"):
-                return {"str": str, "int": int, "bool": bool, "bytes": bytes, "list": list, "dict": dict, "float": float,
+            if name in ("str", "int", "bool", "bytes", "bytearray", "memoryview", "list", "dict", "float", "set", "frozenset", "tuple", "sorted"):
+                return {"str": str, "int": int, "bool": bool, "bytes": bytes, "bytearray": bytearray, "memoryview": memoryview, "list": list, "dict": dict, "float": float,
                         "set": set, "frozenset": frozenset, "tuple": tuple, "sorted": sorted}[name](*args)
             if name == "next" and isinstance(args[0], (list, tuple)):  # a generator expression folds to the list of what it would yield
                 if args[0]:
@@ -690,7 +690,7 @@ class Folder:
                 elif isinstance(v, Unknown):
                     return Unknown("isinstance")
             elif isinstance(k, tuple) and k and k[0] == "builtin":
-                py = {"str": str, "int": int, "bool": bool, "bytes": bytes, "list": list, "dict": dict, "float": float,
+                py = {"str": str, "int": int, "bool": bool, "bytes": bytes, "bytearray": bytearray, "memoryview": memoryview, "list": list, "dict": dict, "float": float,
                       "set": set, "tuple": tuple}.get(k[1])
                 if py is None or isinstance(v, Unknown):
                     return Unknown("isinstance")
